@@ -122,6 +122,11 @@ func (e *Executor) traverse(rt RequestTask) error {
 		// check if traversal is complete
 		isComplete, err := rt.Traverser.IsComplete()
 		if isComplete {
+			// a traversal that ends with SkipMe is one whose root block could not be loaded
+			// that miss was already reported as a missing block, it is not a traversal failure
+			if _, isSkip := err.(traversal.SkipMe); isSkip {
+				return nil
+			}
 			return err
 		}
 		// get current link request
